@@ -118,7 +118,8 @@ func init() {
 	c03 := *props["C02"]
 	c03.QuickRuns, c03.ThoroughRuns = 8000, 300000
 	c03.Pkgs = dbPkgs + ",runtime,api,modules,config"
-	c03.Rule = "one evaluation = one simulated run: a privileged interface writes records with every flag combination (at creation or later) and an interface with one of the three non-privileged Local/Internal combinations (with or without read cache) runs a generated sequence over get, exists, query, subscription feed, attribute insert, absolute/relative expiry, make-secret, make-crown-jewel, delete, purge, batch put, put and put-new; backend in {hashmap, fstree, bbolt} x shadow delete; after every client step the privileged view of every key is compared with the model; distinct = distinct hash of the step kinds; non-trivial = at least 2 goroutine switches"
+	c03.ExtPkgs += ",golang.org/x/sync/errgroup" // the runtime registry queries its providers through an errgroup: its goroutines must be the scheduler's
+	c03.Rule = "one evaluation = one simulated run: a privileged interface writes records with every flag combination (at creation or later) and an interface with one of the three non-privileged Local/Internal combinations (with or without read cache) runs a generated sequence over get, exists, query, subscription feed, attribute insert, absolute/relative expiry, make-secret, make-crown-jewel, delete, purge, batch put, put and put-new; backend in {hashmap, fstree, bbolt} x shadow delete; after every client step the privileged view of every key is compared with the model; the client interface may delay its writes (DelayCachedWrites); on a fault-injecting backend the n-th storage read of a client step fails; distinct = distinct hash of the step kinds; non-trivial = at least 2 goroutine switches"
 	c03.Stub = nil
 	c03.Assume = []string{"the injected config database is not exercised (its options carry no flags); the runtime registry and the external database API (api.CreateDatabaseAPI) are"}
 	props["C03"] = &c03
